@@ -352,6 +352,9 @@ func TestVerifC15(t *testing.T) {
 		}
 		r.Eval("decoded-as-receiver:" + op)
 	}
+	// ---- representatives whose intermediates have chosen internal values (zz_verif_c15reps_test.go)
+	c15chosenRepresentatives(r, rng)
+
 	// ---- stateful walk: a small pool of long-lived point OBJECTS is driven through random sequences of
 	//      every mutator and of the scalar multiplications, each object shadowed by the model's value.
 	//      After every step ALL objects are compared with their shadows (state must not leak between
